@@ -34,7 +34,7 @@ _LENGTH_RE = re.compile(r"^((?:\+|\-)?\d*(?:\.\d+)?)(px|em|c|%|rh|rw)$")
 
 _CLOCK_TIME_FRACTION_RE = re.compile(r"^(\d{2,}):(\d\d):(\d\d(?:\.\d+)?)$")
 _CLOCK_TIME_FRAMES_RE = re.compile(r"^(\d{2,}):(\d\d):(\d\d):(\d{2,})$")
-_OFFSET_FRAME_RE = re.compile(r"^(\d+(?:\.\d+)?)f")
+_OFFSET_FRAME_RE = re.compile(r"^(\d+(?:\.\d+)?)f$")
 _OFFSET_TICK_RE = re.compile(r"^(\d+(?:\.\d+)?)t$")
 _OFFSET_MS_RE = re.compile(r"^(\d+(?:\.\d+)?)ms$")
 _OFFSET_S_RE = re.compile(r"^(\d+(?:\.\d+)?)s$")
